@@ -49,6 +49,11 @@ type c22Case struct {
 	Route  string  `json:"route"`
 	Cred   string  `json:"cred"` // what the caller presents: none | wrong_bearer | lower_scheme | cookie | session
 	Count  int     `json:"count,omitempty"`
+	// PrefixAt: when SetPrefix is called among the setters (any order before
+	// the first request is allowed): 0 first, 1 after the upload provider,
+	// 2 after every configuration-only setter (sticky sessions and custom
+	// routes register under the prefix in force, so they follow it)
+	PrefixAt int `json:"prefix_at,omitempty"`
 }
 
 // ---- instrumentation ----
@@ -202,23 +207,39 @@ const c22Resource = "https://api.example.com"
 
 func c22Build(c c22Case, srv *vgirpc.Server, cnt *c22Counters, auth vgirpc.AuthenticateFunc) (*vgirpc.HttpServer, error) {
 	hs := newHTTP(srv)
-	if c.Prefix != "" {
-		hs.SetPrefix(c.Prefix)
+	setPrefix := func(at int) {
+		if c.Prefix != "" && c.PrefixAt == at {
+			hs.SetPrefix(c.Prefix)
+		}
 	}
+	custom := func() {
+		if c.Feat.Custom {
+			h := func(w http.ResponseWriter, _ *http.Request) {
+				atomic.AddInt64(&cnt.custom, 1)
+				w.WriteHeader(299)
+			}
+			hs.Handle("GET "+c.Prefix+"/__custom__", h)
+			hs.Handle("POST "+c.Prefix+"/__custom__", h)
+		}
+	}
+	// EnableSticky and Handle register their routes under the prefix in force
+	// when they are called, so they follow SetPrefix in every order; the other
+	// setters only store configuration (SetUploadURLProvider's route is part of
+	// the table SetPrefix rebuilds).
+	sticky := func() {
+		if c.Feat.Sticky {
+			hs.EnableSticky(time.Minute)
+		}
+	}
+	setPrefix(0)
 	if c.Feat.Upload {
 		hs.SetUploadURLProvider(c22Provider{cnt})
 		hs.SetMaxUploadBytes(1 << 20)
 	}
-	if c.Feat.Sticky {
-		hs.EnableSticky(time.Minute)
-	}
-	if c.Feat.Custom {
-		h := func(w http.ResponseWriter, _ *http.Request) {
-			atomic.AddInt64(&cnt.custom, 1)
-			w.WriteHeader(299)
-		}
-		hs.Handle("GET "+c.Prefix+"/__custom__", h)
-		hs.Handle("POST "+c.Prefix+"/__custom__", h)
+	setPrefix(1)
+	if c.PrefixAt != 2 {
+		sticky()
+		custom()
 	}
 	if c.Feat.NoPages {
 		hs.SetEnableLandingPage(false)
@@ -264,6 +285,11 @@ func c22Build(c c22Case, srv *vgirpc.Server, cnt *c22Counters, auth vgirpc.Authe
 		if err := hs.SetOAuthPkce(vgirpc.OAuthPkceConfig{}); err != nil {
 			return nil, err
 		}
+	}
+	setPrefix(2)
+	if c.PrefixAt == 2 {
+		sticky()
+		custom()
 	}
 	return hs, nil
 }
@@ -462,6 +488,9 @@ func c22Enabled(c c22Case) bool {
 func genC22(t *rapid.T) c22Case {
 	c := c22Case{}
 	c.Prefix = []string{"", "", "/vgi", "/api/v1"}[rapid.IntRange(0, 3).Draw(t, "prefix")]
+	if c.Prefix != "" {
+		c.PrefixAt = rapid.IntRange(0, 2).Draw(t, "prefix_at")
+	}
 	c.Reject = c22RejectKinds[rapid.IntRange(0, len(c22RejectKinds)-1).Draw(t, "reject")]
 	// protected routes get half of the budget, the exempt list a third
 	var pool []string
@@ -532,7 +561,7 @@ func runC22(c c22Case) (out lib.Outcome) {
 	enabled := c22Enabled(c)
 	out.Label("class:"+class, "route:"+c.Route, "reject:"+c.Reject)
 	if c.Prefix != "" {
-		out.Label("prefixed")
+		out.Label("prefixed", fmt.Sprintf("prefix-set-at:%d", c.PrefixAt))
 	}
 	if class == "protected" && enabled {
 		out.NonTrivial = true
